@@ -26,7 +26,7 @@ CHECKS["C11"] = dict(
 CHECKS["C10"] = dict(
    category="proof",
    text="Lean theorems (QSP/Properties/C10.lean) prove for every phase list and every a in [-1,1] that the executable response model, run on the true cosines/sines, IS the documented product <m| e^{i phi_0 S} prod W(a) e^{i phi_k S} |m> in both conventions and measurements (with the default rule), that U_z = H U_x H so Wx/x = Wz/z, that |response| <= 1, that unknown names are refused, and (respBall_sound) that the driver's rational output plus its error term encloses the defined response. Each run re-checks the audit and compares ComputeQSPResponse with that enclosure for lists of length 1..200 in all (signal_operator, measurement) combinations and at the end points.",
-   note="Trusted: Lean kernel + Mathlib, standard axioms, compiled model driver, Python harness. Comparison tolerance 1e-12*(n+1) plus the proven enclosure error; the correspondence model<->code is sampled (phase lists, points).",
+   note="Trusted: Lean kernel + Mathlib, standard axioms, compiled model driver, Python harness. Comparison tolerance 1e-12*(n+1) plus the proven enclosure error; the correspondence model<->code is sampled (phase lists, points). Phases beyond 40 in modulus (up to 1e15 are generated) are shifted by whole turns before they reach the model: the exact shift changes nothing (C10b.lean, respDef_shift_turns, proved for all phase lists and integer lists), its rounding (420-bit rational 2*pi, 2^-199 per phase) is harness code and is added to the tolerance.",
    technique="Lean 4 proof (definition = model, enclosure soundness) + differential correspondence",
    design="7/C10")
 CHECKS["C14"] = dict(
